@@ -427,6 +427,16 @@ static void build_sections(bool T) {
       c.a.push_back(std::to_string(int(o2.op))); c.a.push_back(o2.val);
     });
   }
+  // ---------------- (e2) relative references x every base of the shared base and initial-URL menus (the editors that
+  // copy base components run here; in the dev build their assertions fire on an inconsistent intermediate state)
+  {
+    auto rels = std::make_shared<std::vector<std::string>>(rel_refs());
+    for (const char* s : {"#", "?", "//h:1/x", "/p?q#f", "../../x", "C|/z", "\\\\h\\p", "?q#f", "#f g"}) rels->push_back(s);
+    std::vector<Ctx> ctxs;
+    for (auto& b : base_menu()) ctxs.push_back(ctx_parse("", "", b));
+    for (auto& b : init_urls()) ctxs.push_back(ctx_parse("", "", b));
+    add_list("relative", rels, ctxs);
+  }
   // ---------------- (b) E-byte position sweeps: byte b at offset p of a run of length L (1..70), every template
   {
     auto bytes = std::make_shared<std::vector<std::string>>(std::vector<std::string>{
